@@ -193,6 +193,21 @@ def check_predicates(decl_idx, seeds, backend_note=''):
             R = exp.export(ctx.replace_with_bdd(u, {b: g}))
             decide(f'{b}:={sem.to_str(gtree)}', R != z3.substitute(U, (bits(b), exp.export(g))),
                    'replace_with_bdd', None, dict(var=b, g=sem.to_str(gtree)))
+        if len(bools) >= 2:
+            b1, b2 = bools[0], bools[1]
+            # the replacement of one key depends on the other key: a sequential substitution gives another result
+            g1t = ('bin', rnd.choice(['and', 'or', 'xor']), ('bvar', b2, False), gen_pred(rnd, {k: v for k, v in decl.items() if k not in (b1, b2)}, 1))
+            g2t = gen_pred(rnd, {k: v for k, v in decl.items() if k not in (b1, b2)}, 1)
+            g1 = ctx.add_expr(sem.to_str(g1t))
+            g2 = ctx.add_expr(sem.to_str(g2t))
+            w = ctx.apply('xor', u, ctx.add_expr(f'{b1} /\\ ~ {b2}'))
+            Wt = exp.export(w)
+            want = z3.substitute(Wt, (bits(b1), exp.export(g1)), (bits(b2), exp.export(g2)))
+            for order in ((b1, b2), (b2, b1)):
+                subs = {k: (g1 if k == b1 else g2) for k in order}
+                R = exp.export(ctx.replace_with_bdd(w, subs))
+                decide(f'{order[0]},{order[1]} simultaneously', R != want, 'replace_with_bdd', None,
+                       dict(two_keys=list(order), b1=b1, b2=b2, g1=g1t, g2=g2t))
         # ---- exist / forall over every subset of the identifiers (size <= 2)
         subsets = [c for k in (1, 2) for c in itertools.combinations(names, k)]
         for qs in subsets:
@@ -401,6 +416,18 @@ def replay(payload):
             want = ev(dict(sigma, **{k: sigma[v] for k, v in c['defs'].items()}))
         got = truth(r, sigma)
         return got != want, f'let({c["defs"]}) at {sigma}: {got}, set semantics: {want}'
+    if op == 'replace_with_bdd' and c.get('two_keys'):
+        b1, b2 = c['b1'], c['b2']
+        g1t, g2t = tuple_tree(c['g1']), tuple_tree(c['g2'])
+        g1, g2 = ctx.add_expr(sem.to_str(g1t)), ctx.add_expr(sem.to_str(g2t))
+        w = ctx.apply('xor', u, ctx.add_expr(f'{b1} /\\ ~ {b2}'))
+        r = ctx.replace_with_bdd(w, {k: (g1 if k == b1 else g2) for k in c['two_keys']})
+        v1 = bool(sem.eval_py(g1t, ctx.vars, sigma))
+        v2 = bool(sem.eval_py(g2t, ctx.vars, sigma))
+        s2 = dict(sigma, **{b1: v1, b2: v2})
+        want = ev(s2) != (s2[b1] and not s2[b2])
+        got = truth(r, sigma)
+        return got != want, f'replace_with_bdd({c["two_keys"]}) at {sigma}: {got}, simultaneous substitution gives {want}'
     if op == 'let-swap':
         x, x2 = c['x'], c['x'] + '2'
         vt = tuple_tree(c['second_tree'])
